@@ -28,6 +28,10 @@ def load_contracts():
                 importlib.import_module(f"{pkg}.{fn[:-3]}")
 
 
+C12_QUICK_PREFIXES = ("pyanalyze.value.", "pyanalyze.typevar.", "pyanalyze.type_object.", "pyanalyze.node_visitor.", "pyanalyze.stacked_scopes.uniq_chain",
+                      "pyanalyze.stacked_scopes.FunctionScope.get_combined_scope", "pyanalyze.signature.Signature.validate")
+
+
 class Result:
     def __init__(self):
         self.obligations = []
@@ -44,8 +48,17 @@ def generate(prop: str, only=None) -> Result:
     col = Collector()
     res.collector = col
     load_classes(REG.modules)
+    by_product = prop == "C12"
+    tier = os.environ.get("VERIF_TIER", "quick")
     for q, c in sorted(REG.contracts.items()):
-        if prop not in c.props or c.kind != "kernel" or not c.verify:
+        if c.kind != "kernel" or not c.verify:
+            continue
+        if by_product:
+            # C12 (totality) is a by-product: the exception-freedom and failure-record obligations of every kernel under
+            # contract; the quick tier keeps to the public value API and the failure record, the thorough tier takes all
+            if tier != "thorough" and not q.startswith(C12_QUICK_PREFIXES):
+                continue
+        elif prop not in c.props:
             continue
         if only and only not in q:
             continue
@@ -77,6 +90,10 @@ def generate(prop: str, only=None) -> Result:
                 col.add(ob)
         except Exception:
             res.crashed["lemma:" + name] = traceback.format_exc()
+    if by_product:
+        col.obligations = [ob for ob in col.obligations if ob.kind in ("safety", "exc", "canary") or "#post.failure_" in ob.name]
+        for ob in col.obligations:
+            ob.info["by_product_of"] = ob.kernel
     res.obligations = col.obligations
     return res
 
@@ -109,6 +126,13 @@ def solve(res: Result, timeout_ms=10000, procs=None):
         for name, r in again.items():
             if r[0] != "unknown":
                 res.status[name] = (r[0], r[1] + "/retry", r[2], r[3])
+        # third chance: what is still open gets twelve times the budget on a quarter of the processes
+        retry2 = [j for j in retry if res.status[j["name"]][0] == "unknown"]
+        if retry2:
+            again = discharge(retry2, timeout_ms=timeout_ms * 12, procs=max(1, (procs or 16) // 4))
+            for name, r in again.items():
+                if r[0] != "unknown":
+                    res.status[name] = (r[0], r[1] + "/retry2", r[2], r[3])
     res.wall = time.time() - t0
     return res
 
